@@ -187,6 +187,7 @@ class Interp:
         self.loop_counter = 0
         self.calls_made = []          # (callee qualname, line)
         self.contract_calls = []      # (callee qualname, bound args, result)
+        self.contract_attempts = []   # (callee qualname, bound args): recorded before the callee's contract is applied
         self._loop_ord = {}
         self.class_stack = []         # (class VFunc, self) of the repo methods being executed (for super())
         self.frame_ok = set()         # ids of non-owned objects the contract allows the function to mutate
@@ -1411,6 +1412,7 @@ class Interp:
         m, fnode, cls = self.repo.find_function(c.qualname)
         denv = Env(m)
         bound = self.bind_args(fnode.args, args, kwargs, denv, node, c.qualname.split(".")[-1])
+        self.contract_attempts.append((c.qualname, bound))
         res = c.apply(self, bound, node)
         self.contract_calls.append((c.qualname, bound, res))
         return res
